@@ -24,7 +24,7 @@ ConfigsQuick == {Cfg(k, v, n, c, TRUE) : k \in {"log", "param"}, v \in {1, 2}, n
 \* the 8-bit boundary (V1 tables end at 255 entries)
 ConfigsBoundary == {Cfg(k, 2, n, FALSE, TRUE) : k \in {"log", "param"}, n \in {254, 255, 256, 257, 258, 300}}
                    \cup {Cfg(k, 1, n, FALSE, TRUE) : k \in {"log", "param"}, n \in {254, 255}}
-ConfigsBoundaryQuick == {Cfg("param", 2, 257, FALSE, TRUE), Cfg("log", 1, 255, FALSE, TRUE)}
+ConfigsBoundaryQuick == {Cfg("param", 2, 257, FALSE, TRUE)}
 \* for the bug configurations
 ConfigsBugSmall == {Cfg(k, v, n, FALSE, TRUE) : k \in {"log", "param"}, v \in {1, 2}, n \in 1..3}
 ConfigsBug257 == {Cfg("log", 2, 257, FALSE, TRUE)}
@@ -33,4 +33,5 @@ ConfigsSim == {Cfg(k, v, n, c, TRUE) : k \in {"log", "param"}, v \in {1, 2}, n \
 WindowAll == 0..65535
 WindowBoundary == {0, 1, 253, 254, 255, 256, 257, 299}
 ConfigsProf == {Cfg("param", 2, 40, FALSE, TRUE)}
+ConfigsSmall4 == {Cfg(k, v, n, c, r) : k \in {"log", "param"}, v \in {1, 2}, n \in 0..4, c \in BOOLEAN, r \in BOOLEAN}
 ====
